@@ -698,7 +698,7 @@ def check_file(case):
     text = render(ast)
     findings, reqs = [], []
     try:
-        d = def_file.parse(text)
+        d = common.after_failed_parse(def_file.parse, text)
     except Exception as ex:
         cls = 'comment-after-orientation' if ast.get('comment_after_orient') else 'parse'
         return [(cls, 'def_file.parse rejects a DEF text of the supported subset', {'raised': f'{type(ex).__name__}: {str(ex)[:300]}'}, None, None)], [], {}
